@@ -689,8 +689,19 @@ Record attempt := mkAttempt {
   at_env : list envop;                    (* environment steps before the attempt *)
   at_ops : list sop;
   at_fl : list (option nat);
-  at_pf : list string                     (* handles whose PreCommit is made to fail *)
+  at_pf : list string;                    (* handles whose PreCommit is made to fail *)
+  at_epf : list (string * val)            (* (map handle, element key): that element's PreCommit refuses *)
 }.
+
+(* An element of an IncMap/HashMap whose PreCommit refuses makes the map's PreCommit refuse
+   (IncMap.PreCommit yields the first error among its dirty elements), provided the element was
+   touched by the section: whether it was is read off the state the body left behind. *)
+Definition elem_refused (c : ctx) (epf : list (string * val)) (h : string) : bool :=
+  existsb (fun hk => String.eqb h (fst hk) &&
+                     match fres c h with
+                     | Some (inr m) => fmem val_eqb (snd hk) (fdirty m)
+                     | _ => false
+                     end) epf.
 
 Definition out_code (o : outcome) : Z :=
   match o with Committed => 0 | Aborted => 1 | Crashed => 2 | AbortPanicked => 3 end.
@@ -701,8 +712,9 @@ Fixpoint run_attempts (c : ctx) (ats : list attempt) (q : list (string * list va
   | [] => []
   | a :: rest =>
       let c0 := fold_left ctx_env (at_env a) c in
+      let cb := fst (fst (run_body String.eqb node_impl touch_of c0 (attempt_prog (at_ops a)) (None :: at_fl a))) in
       let '(c1, o) := ctx_run_section c0 (attempt_prog (at_ops a)) (None :: at_fl a)
-                        (fun h => existsb (String.eqb h) (at_pf a)) in
+                        (fun h => existsb (String.eqb h) (at_pf a) || elem_refused cb (at_epf a) h) in
       let tr := ctx_section_trace c0 (attempt_prog (at_ops a)) (None :: at_fl a) in
       (out_code o, VT (tl tr) :: match o with AbortPanicked => ctx_snap_panic c1 q | _ => ctx_snap c1 q end) ::
       match o with
